@@ -125,7 +125,10 @@ func checkC02(c *Ctx) {
 		m.eachUnitInstr(unit, func(in ssa.Instruction) {
 			if call, ok := in.(*ssa.Call); ok {
 				if fld, v, ok := m.atomicStore(call); ok {
-					v = m.traceValue(v)
+					v = m.traceValueUntil(v, func(x ssa.Value) bool {
+						p, ok := x.(*ssa.Parameter)
+						return ok && p.Parent() == unit
+					})
 					for i, p := range unit.Params {
 						if v == ssa.Value(p) || derivesFromParam(v, p) {
 							if fld == m.Revision {
@@ -139,46 +142,103 @@ func checkC02(c *Ctx) {
 				}
 			}
 		})
-		for _, cs := range m.callers[unit] {
-			nSites++
-			caller := shortFn(cs.Caller)
-			key := "claim after own successful write: " + caller + " -> " + shortFn(unit)
-			if cs.IsGo {
-				c.viol("R1", key, cs.Instr, "the claim-set unit is spawned with `go`: its guards do not hold when it runs")
-				continue
-			}
-			gs := m.AllGuards(cs.Instr, false)
+		// effective call sites: a helper that only forwards its own parameters to the unit
+		// (claimOrDiscard(token, rev)) is transparent - the obligation is on its call sites
+		type claimSite struct {
+			instr  ssa.CallInstruction
+			caller *ssa.Function
+			args   []ssa.Value
+			isGo   bool
+			via    string
+		}
+		findWrite := func(cs claimSite) (*ssa.Call, []Lit) {
+			gs := m.AllGuards(cs.instr, false)
 			var write *ssa.Call
 			for _, l := range gs {
 				if l.Truth && l.S.Op == "bin" && l.S.Name == "==" && symMentions(l.S, "nil") {
 					for _, a := range l.S.Args {
 						if a.Op == "extract" && a.Name == "1" {
-							if kv, ok := m.isKVCall(a.Args[0].V, ""); ok && (kv.Call.Method.Name() == "Create" || kv.Call.Method.Name() == "Update") && kv.Parent() == cs.Caller {
+							if kv, ok := m.isKVCall(a.Args[0].V, ""); ok && (kv.Call.Method.Name() == "Create" || kv.Call.Method.Name() == "Update") && kv.Parent() == cs.caller {
 								write = kv
 							}
 						}
 					}
 				}
 			}
-			if write == nil {
-				c.viol("R1", key, cs.Instr, "the call is not guarded by the success (err == nil) of a Create/Update issued in the same activation (guards: %s): the instance would claim leadership without owning the record", fmtLits(gs))
+			return write, gs
+		}
+		var sites []claimSite
+		var expand func(cs claimSite, depth int)
+		expand = func(cs claimSite, depth int) {
+			if w, _ := findWrite(cs); w == nil && !cs.isGo && depth < 2 && cs.caller.Parent() == nil {
+				if obj := cs.caller.Object(); obj == nil || !obj.Exported() {
+					// are the relevant arguments parameters of the calling function?
+					idxOf := func(v ssa.Value) int {
+						v = m.traceValue(v)
+						for i, p := range cs.caller.Params {
+							if v == ssa.Value(p) {
+								return i
+							}
+						}
+						return -1
+					}
+					forwards := true
+					for _, ix := range []int{revIdx, tokIdx} {
+						if ix >= 0 && ix < len(cs.args) && idxOf(cs.args[ix]) < 0 {
+							forwards = false
+						}
+					}
+					outer := m.callers[cs.caller]
+					if forwards && len(outer) > 0 {
+						for _, o := range outer {
+							oargs := o.Instr.Common().Args
+							nargs := append([]ssa.Value{}, cs.args...)
+							for _, ix := range []int{revIdx, tokIdx} {
+								if ix >= 0 && ix < len(cs.args) {
+									if pi := idxOf(cs.args[ix]); pi >= 0 && pi < len(oargs) {
+										nargs[ix] = oargs[pi]
+									}
+								}
+							}
+							expand(claimSite{instr: o.Instr, caller: o.Caller, args: nargs, isGo: o.IsGo, via: " via " + shortFn(cs.caller) + cs.via}, depth+1)
+						}
+						return
+					}
+				}
+			}
+			sites = append(sites, cs)
+		}
+		for _, cs := range m.callers[unit] {
+			expand(claimSite{instr: cs.Instr, caller: cs.Caller, args: cs.Instr.Common().Args, isGo: cs.IsGo}, 0)
+		}
+		for _, cs := range sites {
+			nSites++
+			caller := shortFn(cs.caller)
+			key := "claim after own successful write: " + caller + cs.via + " -> " + shortFn(unit)
+			if cs.isGo {
+				c.viol("R1", key, cs.instr, "the claim-set unit is spawned with `go`: its guards do not hold when it runs")
 				continue
 			}
-			c.ok("R1", key, cs.Instr, "guarded by the success of %s at %s", write.Call.Method.Name(), c.posOf(write))
-			args := cs.Instr.Common().Args
+			write, gs := findWrite(cs)
+			if write == nil {
+				c.viol("R1", key, cs.instr, "the call is not guarded by the success (err == nil) of a Create/Update issued in the same activation (guards: %s): the instance would claim leadership without owning the record", fmtLits(gs))
+				continue
+			}
+			c.ok("R1", key, cs.instr, "guarded by the success of %s at %s", write.Call.Method.Name(), c.posOf(write))
+			args := cs.args
 			if revIdx >= 0 && revIdx < len(args) {
 				o := m.Origins(args[revIdx])
 				want := fmt.Sprintf("ownwrite:%s@%s", write.Call.Method.Name(), m.P.pos(write.Pos()))
-				c.check(len(o) == 1 && o[want], "R1", "claimed revision is that write's result: "+caller, cs.Instr, "origins of the revision argument %s; required {%s}", o, want)
+				c.check(len(o) == 1 && o[want], "R1", "claimed revision is that write's result: "+caller, cs.instr, "origins of the revision argument %s; required {%s}", o, want)
 			} else {
-				c.undecided("R1", "claimed revision is that write's result: "+caller, cs.Instr, "the parameter of %s feeding the revision field was not identified", shortFn(unit))
+				c.undecided("R1", "claimed revision is that write's result: "+caller, cs.instr, "the parameter of %s feeding the revision field was not identified", shortFn(unit))
 			}
 			if tokIdx >= 0 && tokIdx < len(args) {
 				o := m.Origins(args[tokIdx])
 				p := m.FieldOrigins(write.Call.Args[1], "Token")
-				c.check(o.equal(p) && o.all(func(k string) bool { return strings.HasPrefix(k, "fresh:") }), "R1", "claimed token is the written token: "+caller, cs.Instr, "origins of the token argument %s; origins of the written payload's Token %s", o, p)
+				c.check(o.equal(p) && o.all(func(k string) bool { return strings.HasPrefix(k, "fresh:") }), "R1", "claimed token is the written token: "+caller, cs.instr, "origins of the token argument %s; origins of the written payload's Token %s", o, p)
 			} else {
-				c.undecided("R1", "claimed token is the written token: "+caller, cs.Instr, "the parameter of %s feeding the token field was not identified", shortFn(unit))
+				c.undecided("R1", "claimed token is the written token: "+caller, cs.instr, "the parameter of %s feeding the token field was not identified", shortFn(unit))
 			}
 		}
 	}
